@@ -58,6 +58,15 @@ def install():
 # Record k (k-th write of a history, k <= 8) with payload size n is the k-th letter (digit for json) repeated n times, so
 # that any concatenation of records parses uniquely into records and a torn record is recognisable by its length.
 
+# 'txtl': txt records that contain a Unicode line-boundary character other than '\n' (what str.splitlines() splits at):
+# record k of size n is the k-th letter n times, the k-th boundary character, the letter once more.
+LINE_BOUNDARIES = ('\r', '\x0c', '\x85', '\u2028', '\x0b', '\x1c', '\x1d', '\x1e', '\u2029')
+
+
+def txtl(k: int, n: int) -> str:
+    return chr(65 + k) * n + LINE_BOUNDARIES[k % len(LINE_BOUNDARIES)] + chr(65 + k)
+
+
 def payload(mode: str, k: int, n: int):
     if mode in ('bin', 'binl'):
         return bytes([65 + k]) * n
@@ -65,6 +74,8 @@ def payload(mode: str, k: int, n: int):
         return chr(65 + k) * n
     if mode == 'txtw':                 # txt with 2-byte UTF-8 letters: sizes on disk are counted in bytes, not characters
         return chr(0x410 + k) * n
+    if mode == 'txtl':
+        return txtl(k, n)
 
     return int(str(k + 1) * n)  # json: an n-digit integer
 
@@ -78,6 +89,8 @@ def raw(mode: str, k: int, n: int) -> bytes:
         return bytes([65 + k]) * n + b'\n'
     if mode == 'txtw':
         return (chr(0x410 + k) * n).encode() + b'\n'
+    if mode == 'txtl':
+        return txtl(k, n).encode() + b'\n'
 
     return (str(k + 1) * n).encode() + b'\n'
 
@@ -132,6 +145,19 @@ def parse(mode: str, out, sizes: list):
                 return f'binl read returned {it!r}'
 
             r = runs(it, 65)
+
+        elif mode == 'txtl':
+            if not isinstance(it, str) or not it:
+                return f'txt read returned {it!r}'
+
+            k = ord(it[0]) - 65
+
+            if not 0 <= k < len(sizes):
+                return f'unknown record symbol {it[0]!r}'
+            if it != txtl(k, sizes[k]):
+                return f'record {k} was written as {txtl(k, sizes[k])!r} and comes back as {it!r}'
+
+            r = [k]
 
         elif mode in ('txt', 'txtw'):
             if not isinstance(it, str) or not it:
